@@ -37,6 +37,22 @@ def gen_case(g: VGen, opts: dict) -> dict:
             return c      # (named recursive validators need an environment; they are exercised by C05)
 
 
+def transforming(g: VGen) -> dict:
+    """a validator whose payload always differs from the argument: delivery of the payload (C09) is then observable
+    for whatever parameter kind it annotates"""
+    r = g.rng
+    c = r.random()
+    if c < 0.4:
+        return {"k": "scalar", "vid": g.vid(), "ty": "str", "coerce": None, "preds": [], "apreds": None,
+                "pre": [{"k": "user", "pid": g.pid(), "fn": {"f": "appendStr", "s": [33]}}]}
+    if c < 0.75:
+        return {"k": "scalar", "vid": g.vid(), "ty": "int", "coerce": None, "preds": [], "apreds": None,
+                "pre": [{"k": "user", "pid": g.pid(), "fn": {"f": "addInt", "k": r.choice([1, 10])}}]}
+    return {"k": "list", "vid": g.vid(), "preds": None, "apreds": None, "coerce": None,
+            "item": {"k": "scalar", "vid": g.vid(), "ty": "str", "coerce": None, "preds": [], "apreds": None,
+                     "pre": [{"k": "user", "pid": g.pid(), "fn": {"f": "appendStr", "s": [63]}}]}}
+
+
 def _gen_case(g: VGen, opts: dict) -> dict:
     r = g.rng
     g.reset()
@@ -51,9 +67,9 @@ def _gen_case(g: VGen, opts: dict) -> dict:
         p = {"name": name, "kind": kind, "annotated": ann, "overridden": ov, "ignored": r.random() < 0.1,
              "default": kind in ("posOnly", "posOrKw", "kwOnly") and r.random() < 0.3}
         if ann:
-            p["av"] = g.gen_v(r.choice([0, 0, 1]))
+            p["av"] = transforming(g) if r.random() < 0.3 else g.gen_v(r.choice([0, 0, 1]))
         if ov:
-            p["ov"] = g.gen_v(r.choice([0, 0, 1]))
+            p["ov"] = transforming(g) if r.random() < 0.3 else g.gen_v(r.choice([0, 0, 1]))
         return p
     npo, npk, nko = r.choice([0, 0, 1, 2]), r.choice([0, 1, 1, 2]), r.choice([0, 0, 1, 2])
     for i in range(npo):
